@@ -14,6 +14,10 @@ Line(G) ==
   IF Mode = "tian"
   THEN [g |-> [n |-> G.n, d |-> G.d, b |-> G.b],
         qs |-> {<<p[1], p[2], o, TIdent(G, p[2], p[1])>> : p \in TianPairs(G), o \in TopoOrders(G)}]
+  ELSE IF Mode = "trso"
+  THEN [g |-> [n |-> G.n, d |-> G.d, b |-> G.b],
+        qs |-> {<<p[1], p[2], {}, ~IsFail(IDRef(G, p[1], p[2]))>> : p \in Queries(G)},
+        doms |-> {<<c[1], c[2], TransportNodes(G, c[1], c[2])>> : c \in DomainConfigs(G)}]
   ELSE IF Mode = "id"
   THEN [g |-> [n |-> G.n, d |-> G.d, b |-> G.b],
         qs |-> {<<p[1], p[2], {}, ~IsFail(IDRef(G, p[1], p[2]))>> : p \in Queries(G)}]
